@@ -203,9 +203,11 @@ def _nx_import(klass, ref, seed, bad, bad_exc, ctx):
             if rr.random() < 0.5:
                 a, b = b, a
             N.add_edge(a, b)
-        # numbering inside each side follows the node order of the input
-        lorder = [x for x in N.nodes() if x[0] == "L"]
-        rorder = [x for x in N.nodes() if x[0] == "R"]
+        # "if the vertices have some kind of order, the order is
+        # preserved": numbering inside each side follows the sorted labels,
+        # as for simple and directed graphs, whatever the insertion order
+        lorder = sorted(x for x in N.nodes() if x[0] == "L")
+        rorder = sorted(x for x in N.nodes() if x[0] == "R")
         li = {x: i for i, x in enumerate(lorder, start=1)}
         ri = {x: i for i, x in enumerate(rorder, start=1)}
         want = sorted((li[("L", u)], ri[("R", v)]) for u, v in E)
@@ -293,12 +295,8 @@ def execute(case, ctx):
                 refused += 1
                 ctx.fault("refused_insertion")
                 if r[0] == "ok":
-                    if complete:
-                        ctx.note("CompleteBipartiteGraph.add_edge ignores "
-                                 "out-of-range vertices silently")
-                    else:
-                        bad("invalid-insertion-accepted",
-                            "add_edge(%r,%r) did not raise" % (u, v))
+                    bad("invalid-insertion-accepted",
+                        "add_edge(%r,%r) did not raise" % (u, v))
                 elif not isinstance(r[1], ValueError) and not (
                         isinstance(r[1], TypeError) and not (
                             _isint(u) and _isint(v))):
@@ -335,12 +333,8 @@ def execute(case, ctx):
                 bad_exc("add_edges_from", r[1])
             if not ok:
                 if r[0] == "ok":
-                    if complete:
-                        ctx.note("CompleteBipartiteGraph.add_edge ignores "
-                                 "out-of-range vertices silently")
-                    else:
-                        bad("invalid-insertion-accepted",
-                            "add_edges_from(%r) did not raise" % (es,))
+                    bad("invalid-insertion-accepted",
+                        "add_edges_from(%r) did not raise" % (es,))
                 elif not isinstance(r[1], ValueError) and not (
                         isinstance(r[1], TypeError) and not (
                             _isint(u) and _isint(v))):
